@@ -85,14 +85,12 @@ func VerifH_C01_api_contig_f32() {
 // integer types: Read() widens to float64; the value must be float64(v) for either signedness, or an error.
 func verifIntCheck(got []float64, err error, want []float64) {
 	if err != nil {
-		vrt.Covered("typed-read-error")
-		return
+		return // no typed read for this element type: an error is allowed, different values are not
 	}
 	vrt.Assert(len(got) == len(want), "same-shape")
 	for i := range want {
 		vrt.Assert(got[i] == want[i], "int-values-exact")
 	}
-	vrt.Covered("read-back")
 }
 
 func VerifH_C01_api_contig_i32() {
@@ -221,8 +219,8 @@ func VerifH_C01_api_strings() {
 		for i := range data {
 			vrt.Assert(got[i] == data[i], "string-bytes-exact")
 		}
-		vrt.Covered("read-back")
 	}
+	vrt.Covered("read-back")
 	_ = f.Close()
 }
 
